@@ -154,10 +154,13 @@ func goAppend(i *interpreter, elemT types.Type, s []value, add []value) []value 
 		newCap = capAfterAppend(size, key.ptr, len(s), cap(s), len(add))
 		i.eng.typeCache.Store(key, newCap)
 	}
-	ns := make([]value, len(s)+len(add), newCap)
+	ns := make([]value, newCap)
 	copy(ns, s)
 	copy(ns[len(s):], add)
-	return ns
+	for k := len(s) + len(add); k < newCap; k++ {
+		ns[k] = zero(elemT)
+	}
+	return ns[:len(s)+len(add)]
 }
 
 // ---- printing ------------------------------------------------------------------
@@ -440,4 +443,79 @@ func toNativeJSON(v value) any {
 		panic(unsupported{"symbolic value passed to a native-only library function"})
 	}
 	panic(unsupported{fmt.Sprintf("toNativeJSON: %T", v)})
+}
+
+// ---- write tracking (frame conditions) ------------------------------------------
+
+// markReachable records every storage cell and map reachable from v.
+func (ps *pathState) markReachable(v value, depth int) {
+	if depth > 200 {
+		return
+	}
+	switch v := v.(type) {
+	case *value:
+		if v == nil || ps.gcells[v] {
+			return
+		}
+		ps.gcells[v] = true
+		ps.markAggregate(v, depth)
+	case structure:
+		for k := range v {
+			ps.gcells[&v[k]] = true
+			ps.markReachable(v[k], depth+1)
+		}
+	case array:
+		for k := range v {
+			ps.gcells[&v[k]] = true
+			ps.markReachable(v[k], depth+1)
+		}
+	case []value:
+		full := v[:cap(v)]
+		for k := range full {
+			if ps.gcells[&full[k]] {
+				return
+			}
+			ps.gcells[&full[k]] = true
+			ps.markReachable(full[k], depth+1)
+		}
+	case iface:
+		ps.markReachable(v.v, depth+1)
+	case *omap:
+		if v == nil || ps.gmaps[v] {
+			return
+		}
+		ps.gmaps[v] = true
+		for _, i := range v.liveIndices() {
+			ps.markReachable(v.vals[i], depth+1)
+		}
+	case *closure:
+		for _, e := range v.Env {
+			ps.markReachable(e, depth+1)
+		}
+	}
+}
+
+func (ps *pathState) markAggregate(c *value, depth int) {
+	ps.markReachable(*c, depth+1)
+}
+
+// startTracking snapshots what is reachable from the repository's package-level variables.
+func (i *interpreter) startTracking() {
+	ps := i.ps
+	ps.gcells = map[*value]bool{}
+	ps.gmaps = map[*omap]bool{}
+	for g, cell := range i.globals {
+		if g.Pkg != nil && i.eng.isRepoPkg(g.Pkg) && !strings.Contains(g.Pkg.Pkg.Path(), "zzverif") && !strings.HasPrefix(g.Name(), "init$guard") {
+			ps.markReachable(cell, 0)
+		}
+	}
+	ps.trackW = true
+}
+
+func (ps *pathState) noteWrite(what string) {
+	if len(ps.writes) < 50 {
+		ps.writes = append(ps.writes, what+" at "+ps.curPos())
+	} else {
+		ps.writes = append(ps.writes, "")
+	}
 }
